@@ -62,6 +62,7 @@ func freeScenario(r *hx.Rand) *Scenario {
 }
 
 func runFree(sc *Scenario, r *hx.Rand) *Outcome {
+	progress(sc)
 	n := len(sc.Actors)
 	o := &Outcome{Res: make([]string, n), afterClose: make([]bool, n), cause: "unknown"}
 	xmpp.VerifSetHook(nil)
@@ -155,7 +156,9 @@ func runFree(sc *Scenario, r *hx.Rand) *Outcome {
 		select {
 		case <-serveDone:
 			for i, a := range sc.Actors {
-				if a.Kind == "probe" {
+				// a read on a stream that is not marked closed would block on the
+				// connection: the missing bit is reported by the oracle instead
+				if a.Kind == "probe" && rg.s.State()&xmpp.InputStreamClosed != 0 {
 					err := rg.call(a, i, time.Time{})
 					o.Res[i] = classify(err)
 				}
